@@ -1,0 +1,11 @@
+//go:build !verif
+
+// Package vhook provides named trace/yield points for the verification
+// harness. Without the "verif" build tag every point is an empty function.
+package vhook
+
+// Point marks a named point in the code. It does nothing in normal builds.
+func Point(name string) {}
+
+// Enabled reports whether the verification hooks are compiled in.
+const Enabled = false
